@@ -3,9 +3,11 @@ package c19
 import (
 	"context"
 	"fmt"
+	"math"
 	"testing"
 	"time"
 
+	"google.golang.org/protobuf/types/known/timestamppb"
 	"pgregory.net/rapid"
 
 	"github.com/ozontech/seq-db/pkg/seqproxyapi/v1"
@@ -35,6 +37,11 @@ type ProxyCase struct {
 	// synchronous search with these paging parameters would return them
 	PageOffset int `json:"page_offset,omitempty"`
 	PageSize   int `json:"page_size,omitempty"`
+	// NaNQuantile: the search is started through the proxy's gRPC StartAsyncSearch handler with a
+	// quantile aggregation whose argument list holds NaN (a legal double on the wire, "NaN" in the
+	// JSON gateway).  Not a number between 0 and 1: the request has to be refused, and no store
+	// may die of it.
+	NaNQuantile bool `json:"nan_quantile,omitempty"`
 }
 
 func genProxy(t *rapid.T) ProxyCase {
@@ -53,6 +60,7 @@ func genProxy(t *rapid.T) ProxyCase {
 	c.R.Limit = 1 << 20
 	c.Style = gen.Style(t)
 	c.Aggs = gen.AggSpecs(t, 2)
+	c.NaNQuantile = rapid.IntRange(0, 19).Draw(t, "nanquantile") == 19
 	c.PageOffset = rapid.IntRange(0, len(c.Corpus)+1).Draw(t, "pageoffset")
 	c.PageSize = rapid.IntRange(0, len(c.Corpus)+1).Draw(t, "pagesize")
 	return c
@@ -98,6 +106,23 @@ func runProxy(c ProxyCase) (evid.Result, error) {
 		ar.Aggregations = append(ar.Aggregations, search.AggQuery{Field: a.Field, GroupBy: a.GroupBy, Func: harness.AggFuncOf(a), Quantiles: a.Quantiles, Interval: seq.MID(a.Interval)})
 	}
 	ctx := context.Background()
+	if c.NaNQuantile {
+		api := proxyapi.VerifNewGrpcV1(proxyapi.APIConfig{SearchTimeout: time.Minute, ExportTimeout: time.Minute}, cl.Ing, nil, nil)
+		_, err := api.StartAsyncSearch(ctx, &seqproxyapi.StartAsyncSearchRequest{
+			Query: &seqproxyapi.SearchQuery{Query: text, From: timestamppb.New(time.UnixMilli(int64(min(c.R.From, 1<<41)))), To: timestamppb.New(time.UnixMilli(int64(min(c.R.To, 1<<41))))},
+			Aggs:  []*seqproxyapi.AggQuery{{Func: seqproxyapi.AggFunc_AGG_FUNC_QUANTILE, Field: "dur", Quantiles: []float64{0.5, math.NaN()}}},
+		})
+		res.Labels = append(res.Labels, "nan-quantile")
+		res.NonTrivial = true
+		if err == nil {
+			return res, evid.Failf("nan-quantile-accepted", "StartAsyncSearch accepted the quantile list [0.5, NaN]")
+		}
+		// the stores must still answer
+		if _, _, serr := cl.ProxySearch("*", &model.SearchReq{Q: model.All(), From: 0, To: 1 << 41, Limit: 10}, 0, 10, nil, false); serr != nil {
+			return res, evid.Failf("store-unusable-after-nan-quantile", "%v", serr)
+		}
+		return res, nil
+	}
 	start, err := cl.Ing.StartAsyncSearch(ctx, ar)
 	if err != nil {
 		return res, evid.Failf("startasync-error", "%q: %v", text, err)
